@@ -582,6 +582,11 @@ pub fn exec(out: &mut Out, ex: &[Value]) {
                         ("f64", 2) => windower::<[f64; 2], $w>(out, cfg, ops),
                         ("f32", 2) => windower::<[f32; 2], $w>(out, cfg, ops),
                         ("i16", 2) => windower::<[i16; 2], $w>(out, cfg, ops),
+                        // round 5: unsigned formats (equilibrium 128 / 32768, not 0)
+                        ("u8", 1) => windower::<[u8; 1], $w>(out, cfg, ops),
+                        ("u8", 2) => windower::<[u8; 2], $w>(out, cfg, ops),
+                        ("u16", 1) => windower::<[u16; 1], $w>(out, cfg, ops),
+                        ("u16", 2) => windower::<[u16; 2], $w>(out, cfg, ops),
                         _ => panic!("unsupported frame type {} x {}", fmt, ch),
                     }
                 };
@@ -648,11 +653,11 @@ pub fn gen(rng: &mut Rng, tier: &str, execs: &mut Vec<Vec<Value>>) {
         }
     }
     // windowers: random L <= 4096, bins 2..64, hops chosen so that the number of chunks stays moderate
-    let count = if thorough { 240 } else { 36 };
-    let combos: [(&str, usize); 6] = [("f64", 1), ("f32", 1), ("i16", 1), ("f64", 2), ("f32", 2), ("i16", 2)];
+    let count = if thorough { 240 } else { 40 };
+    let combos: [(&str, usize); 8] = [("f64", 1), ("f32", 1), ("i16", 1), ("f64", 2), ("f32", 2), ("i16", 2), ("u8", 2), ("u16", 1)];
     for k in 0..count {
-        let (fmt, ch) = combos[k % 6];
-        let kind = if (k / 6) % 2 == 0 { "hann" } else { "rect" };
+        let (fmt, ch) = combos[k % 8];
+        let kind = if (k / 8) % 3 != 2 { "hann" } else { "rect" };
         let l = match rng.below(6) {
             0 => rng.below(8),
             1 => 4096,
@@ -681,7 +686,7 @@ pub fn gen(rng: &mut Rng, tier: &str, execs: &mut Vec<Vec<Value>>) {
                     (0..ch)
                         .map(|_| {
                             let n = rng.range(-32768, 32767);
-                            if fmt == "i16" || !fine {
+                            if (fmt != "f64" && fmt != "f32") || !fine {
                                 json!(n)
                             } else {
                                 let u = (rng.next() >> 11) as f64 / (1u64 << 53) as f64;
@@ -693,6 +698,50 @@ pub fn gen(rng: &mut Rng, tier: &str, execs: &mut Vec<Vec<Value>>) {
                 )
             })
             .collect();
+        // round 5: the VALUES of the frames (three windowers out of four): exact silence sprinkled over the array (whole
+        // frames and single channels), runs of silence / of one repeated frame (lengths around the bin size), every second
+        // frame silent, an all-silent or constant array.  The small-integer spec 0 is equilibrium in every format.
+        let mut frames = frames;
+        let silent = || Value::Array((0..ch).map(|_| json!(0)).collect());
+        if l > 0 {
+            match (k / 2) % 4 {
+                1 => {
+                    for i in 0..l {
+                        match rng.below(8) {
+                            0 | 1 => frames[i] = silent(),
+                            2 => frames[i][rng.below(ch as u64) as usize] = json!(0),
+                            _ => {}
+                        }
+                    }
+                }
+                2 => {
+                    for kindr in 0..2 {
+                        let r = (match rng.below(4) { 0 => 2, 1 => b - 1, 2 => b, _ => b + 1 + rng.below(b as u64) as usize }).clamp(1, l);
+                        let z = rng.below((l - r + 1) as u64) as usize;
+                        let f = if kindr == 0 { silent() } else { frames[z].clone() };
+                        for i in z..(z + r) {
+                            frames[i] = f.clone();
+                        }
+                    }
+                }
+                3 => {
+                    let f0 = frames[0].clone();
+                    let m = rng.below(3);
+                    for i in 0..l {
+                        match m {
+                            0 => frames[i] = silent(),
+                            1 => frames[i] = f0.clone(),
+                            _ => {
+                                if i % 2 == 0 {
+                                    frames[i] = silent()
+                                }
+                            }
+                        }
+                    }
+                }
+                _ => {}
+            }
+        }
         let reset = json!({"ev":"reset","comp":"windower","cfg":{"kind":kind,"fmt":fmt,"ch":ch,"b":b,"h":h,"frames":frames}});
         let mut ex = vec![reset.clone()];
         // the driver just keeps asking, generously past any possible end (no chunk count is computed here)
